@@ -16,8 +16,8 @@ Lemma Run_count fctx legs c tk s r s' : Run fctx legs c tk s r s' -> r = Ok tt -
   if c then steps s' = steps s
   else exists k, stop_index true legs = Some k /\ length (steps s') = (length (steps s) + S k)%nat.
 Proof.
-  induction 1 as [legs tk s|tk s|l ls tk s Ht|l ls tk s Ht Es|l ls tk s rp rest Ht Es Ex|l ls tk s rs fl tk' rest e Ht Es Ea
-                 |l ls tk s rs fl tk' rest acc r s' Ht Es Ea HR IH]; intro Hr; try discriminate.
+  induction 1 as [legs tk s|tk s|l ls tk s Ht|l ls tk s Ht Es|l ls tk s rp rest Ht Es Ex|l ls tk s rs fl tk' rest e Ht Es Hd Ea
+                 |l ls tk s rs fl tk' rest acc r s' Ht Es Hd Ea HR IH]; intro Hr; try discriminate.
   - reflexivity.
   - exists 0%nat. cbn [stop_index]. unfold stops_here. rewrite Ht. cbn [is_nil andb]. rewrite orb_true_r.
     split; [reflexivity|]. rewrite snoc_step_steps, app_length. cbn [length]. lia.
@@ -36,7 +36,7 @@ Theorem leg_count l ls srv ctxs rs s : bind_run true (l :: ls) srv ctxs = (Ok rs
   stop_index false (l :: ls) = Some (length (steps s) - 1)%nat /\ (1 <= length (steps s))%nat.
 Proof.
   intros H. apply bind_run_BindRun in H.
-  inversion H as [Es|rp rest Es Ex|rs' fl tk rest e Es Ea|rs' fl tk rest acc ru s0 Es Ea HR Hru Hs]; subst; try discriminate.
+  inversion H as [Es|rp rest Es Ex|rs' fl tk rest e Es Hd Ea|rs' fl tk rest acc ru s0 Es Hd Ea HR Hru Hs]; subst; try discriminate.
   destruct ru as [[]|e]; [|discriminate].
   apply Run_count in HR; [|reflexivity]. rewrite bind_st_loop_steps in HR.
   cbn [stop_index]. unfold stops_here. cbn [andb]. rewrite orb_false_r.
@@ -83,6 +83,6 @@ Proof.
       exact (result_is_bind_ack _ _ _ _ _ _ Hb rs eq_refl).
     - destruct (anonymous _ _ _ _ _ Hb) as (_ & _ & _ & Hm).
       destruct srv as [|[rs' fl tk|? ? ?| | |] rest]; destruct Hm as [Hm _]; try discriminate.
-      apply Ok_inj in Hm. subst rs'. eauto. }
+      destruct (forallb result_code_ok rs'); [|discriminate]. apply Ok_inj in Hm. subst rs'. eauto. }
   destruct Hs as (fl & tk & rest & Hs). exists fl, tk, rest, i. auto.
 Qed.
